@@ -185,20 +185,36 @@ pub fn run(ctx: &mut Ctx, replay: Option<&str>) {
             }
         }
     }
+    // whatever the seed draws: some flows with a bound holder key whose own call asks for NO key binding, presented from a holder
+    // that has just made a key-bound presentation (both formats)
+    let mut forced_kb_warmup: HashSet<usize> = HashSet::new();
+    if replay.is_none() {
+        for k in 0..ctx.tier.pick(12, 60) {
+            let mut r = ctx.rng.fork(8_000_000 + k as u64);
+            let mut f = gen_flow(&mut r, &cfg);
+            f.issue.holder = Some(if k % 2 == 0 { crate::keys::KeyId::HolderEc } else { crate::keys::KeyId::HolderEd });
+            f.kb = None;
+            f.issue.fmt = if k % 4 < 2 { Fmt::Json } else { Fmt::Compact };
+            forced_kb_warmup.insert(flows.len());
+            flows.push((f, false));
+            ctx.count("stream.unbound_call_after_a_bound_one");
+        }
+    }
     let mut reqs = vec![];
     let mut runs = vec![];
-    for (f, _) in &flows {
+    for (fi, (f, _)) in flows.iter().enumerate() {
         ctx.evaluations += 1;
         let issue_res = issue(&f.issue);
         ctx.impl_calls += 1;
         // every third flow presents from a holder instance that has already produced another presentation: one with a
         // key-binding JWT when a holder key is bound (it must not leak into a later call that requests none), else select-all
-        let reuse = ctx.evaluations % 3 == 0;
+        let forced = forced_kb_warmup.contains(&fi);
+        let reuse = forced || ctx.evaluations % 3 == 0;
         let hold = issue_res.out.ok().map(|s| {
             ctx.impl_calls += 1;
             if reuse {
                 let mut warm_sel = select_all(&f.issue.claims).as_object().cloned().unwrap_or_default();
-                let warmup = match (ctx.evaluations / 3) % 3 {
+                let warmup = match if forced { 0 } else { (ctx.evaluations / 3) % 3 } {
                     // a call that FAILS after it has walked (and collected) everything: a member that does not exist comes last
                     1 => {
                         warm_sel.insert("zz\u{1}no-such-claim".into(), json!(true));
